@@ -106,6 +106,9 @@ Proof.
     repeat (destruct H as [[-> ->]|H]; [reflexivity|]); destruct H as [-> ->]; reflexivity.
 Qed.
 
+Lemma step_continuation isb q rec rest : okq q -> body_step isb q rec BS (NL :: rest) = rec rest.
+Proof. intros [ -> | [ -> | -> ] ]; reflexivity. Qed.
+
 Lemma step_hex isb q rec e n h c rest : okq q ->
   length h = n -> unhex 0 h = Some c ->
   (e = 120 /\ n = 2%nat) \/ (isb = false /\ e = 117 /\ n = 4%nat) \/ (isb = false /\ e = 85 /\ n = 8%nat) ->
@@ -132,6 +135,19 @@ Lemma two_sq_not_start l : starts_sq l = false -> two_sq l = false.
 Proof. destruct l as [|a [|b l]]; simpl; intro H; try reflexivity. rewrite H. reflexivity. Qed.
 Lemma two_sq_second l : starts_sq l = false -> two_sq (SQ :: l) = false.
 Proof. destruct l as [|a l]; simpl; intro H; [reflexivity|]. exact H. Qed.
+
+Lemma eval_lit_single (isb : bool) (q : N) (body : list N) : q = SQ \/ q = DQ -> (q = SQ -> two_sq body = false) ->
+  eval_lit ((if isb then [98] else [] : list N) ++ q :: body)
+  = option_map (pair isb) (eval_body isb (Some q) (S (length body)) body).
+Proof.
+  intros [-> | ->] H; destruct isb; unfold eval_lit; simpl; try reflexivity;
+    specialize (H eq_refl); unfold two_sq in H; rewrite H; reflexivity.
+Qed.
+
+Lemma eval_lit_triple (isb : bool) (body : list N) :
+  eval_lit ((if isb then [98] else [] : list N) ++ SQ :: SQ :: SQ :: BS :: NL :: body)
+  = option_map (pair isb) (eval_body isb None (S (S (S (S (S (length body)))))) (BS :: NL :: body)).
+Proof. destruct isb; reflexivity. Qed.
 
 Section RoundTrip.
   Variable isb : bool.
@@ -242,23 +258,10 @@ Section RoundTrip.
       pose proof (esc_nonempty q c) as Ne. destruct (esc q c) as [|x l] eqn:Ex; [congruence|].
       simpl in H2 |- *. destruct (l ++ flat_map (esc q) s ++ [q]); simpl in H2; [discriminate|].
       apply andb_true_iff in H2. tauto. }
-    unfold prefix, eval_lit. destruct isb eqn:Eb.
-    - simpl app. change (N.eqb 98 98) with true. cbv iota beta.
-      destruct Hq as [E|E]; rewrite E in *.
-      + change (N.eqb SQ SQ) with true. simpl andb.
-        destruct (match body ++ [SQ] with b :: c :: _ => N.eqb b SQ && N.eqb c SQ | _ => false end) eqn:E2.
-        * exfalso. apply T; [exact E2|reflexivity].
-        * simpl orb. rewrite B. reflexivity.
-      + change (N.eqb DQ SQ) with false. simpl andb. simpl orb. rewrite B. reflexivity.
-    - simpl app.
-      destruct Hq as [E|E]; rewrite E in *.
-      + change (N.eqb SQ 98) with false. cbv iota beta.
-        change (N.eqb SQ SQ) with true. simpl andb.
-        destruct (match body ++ [SQ] with b :: c :: _ => N.eqb b SQ && N.eqb c SQ | _ => false end) eqn:E2.
-        * exfalso. apply T; [exact E2|reflexivity].
-        * simpl orb. rewrite B. reflexivity.
-      + change (N.eqb DQ 98) with false. cbv iota beta.
-        change (N.eqb DQ SQ) with false. simpl andb. simpl orb. rewrite B. reflexivity.
+    unfold prefix. change ([q] ++ body ++ [q]) with (q :: (body ++ [q])).
+    rewrite (eval_lit_single isb q (body ++ [q]) Hq).
+    - rewrite B. reflexivity.
+    - intro E. destruct (two_sq (body ++ [q])) eqn:E2; [exfalso; apply T; [reflexivity|exact E]|reflexivity].
   Qed.
 
   (* ---- a character of a multiline body ---- *)
@@ -313,7 +316,8 @@ Section RoundTrip.
     intro H. simpl TextRepr.body_ml. rewrite <- !app_assoc.
     destruct (N.eqb a SQ) eqn:Ea.
     - simpl in H. apply N.eqb_eq in Ea. subst a.
-      unfold flag at 1. rewrite H. rewrite andb_false_r. unfold TextRepr.esc_ml at 1.
+      assert (Fl : flag SQ (b :: t) = false) by (unfold flag; destruct t; simpl; rewrite ?H; reflexivity).
+      rewrite Fl. unfold TextRepr.esc_ml at 1.
       change (N.eqb SQ SQ) with true. cbv iota. simpl app.
       apply two_sq_second. apply esc_ml_start. exact H.
     - apply two_sq_not_start. apply esc_ml_start. exact Ea.
@@ -351,14 +355,8 @@ Section RoundTrip.
           repeat match goal with |- context [if ?b then _ else _] => destruct b end; try discriminate; assumption. }
         destruct (esc_ml x (flag x l)); [congruence|]. simpl. lia. }
       specialize (H (s ++ [SQ; SQ])). rewrite app_length in H. simpl in H. lia. }
-    unfold prefix, eval_lit. replace ([SQ; SQ; SQ; BS; NL] ++ body_ml (s ++ [SQ; SQ]) ++ [SQ])
-      with (SQ :: SQ :: SQ :: BS :: NL :: body) by reflexivity.
-    destruct isb eqn:Eb; simpl app.
-    - change (N.eqb 98 98) with true. cbv iota beta. change (N.eqb SQ SQ) with true. simpl andb. cbv iota.
-      simpl skipn. rewrite eval_body_eq. unfold body_step. simpl.
-      rewrite B; [reflexivity|simpl; lia].
-    - change (N.eqb SQ 98) with false. cbv iota beta. change (N.eqb SQ SQ) with true. simpl andb. cbv iota.
-      simpl skipn. rewrite eval_body_eq. unfold body_step. simpl.
-      rewrite B; [reflexivity|simpl; lia].
+    unfold prefix. change ([SQ; SQ; SQ; BS; NL] ++ body) with (SQ :: SQ :: SQ :: BS :: NL :: body).
+    rewrite eval_lit_triple, eval_body_eq, step_continuation by (left; reflexivity).
+    rewrite B; [reflexivity|lia].
   Qed.
 End RoundTrip.
